@@ -241,6 +241,44 @@ def translate(repo):
             bad.append("flags of " + st)
         flags[st] = fl
     out["flags"] = flags
+
+    # --- I/O discipline (C10) and state (C15) ---------------------------------------------------
+    # The model's programs transfer bytes only through RdExact / WrAll nodes (read_exact / write_all, directly or through the byteorder
+    # extension traits, whose names all start with read_/write_ followed by an integer type).  Every OTHER way of moving bytes that the
+    # source uses is listed here (file, method, count); Props/C10.v pins the list the model was written against.
+    raw = {}
+    structs = {}
+    interior = []
+    header_writes = 0
+    srcfiles = []
+    for root, _, files in os.walk(src):
+        for fn in sorted(files):
+            if fn.endswith(".rs"):
+                srcfiles.append(os.path.join(root, fn))
+    for path in sorted(srcfiles):
+        rel = os.path.relpath(path, repo)
+        text = strip_comments(open(path).read()).split("#[cfg(test)]")[0]
+        for mm in re.finditer(r"\.\s*(read|write|take|read_to_end|read_to_string|by_ref|chain|read_vectored|write_vectored|flush|fill_buf|consume|read_buf|read_line|lines|split)\s*\(", text):
+            name = mm.group(1)
+            before = text[max(0, mm.start() - 120):mm.start()]
+            if name == "write" and re.search(r"BoxHeader::new\([^;{}]*\)\s*$", before):
+                header_writes += 1          # BoxHeader::write: the library's own method, modelled as write_header
+                continue
+            if name in ("split", "lines") and not re.search(r"(reader|writer|stream)\s*$", before):
+                continue                    # str::split / str::lines
+            raw[(rel, name)] = raw.get((rel, name), 0) + 1
+        for tok in re.findall(r"\b(BufReader|BufWriter|io::copy|Cell<|RefCell<|Mutex<|RwLock<|Atomic[A-Z]\w*|static\s+mut|thread_local!|lazy_static!|OnceCell|OnceLock|UnsafeCell)", text):
+            interior.append([rel, re.sub(r"\s+", " ", tok)])
+        for sm in re.finditer(r"struct\s+(Mp4Reader|Mp4Track|Mp4TrackWriter|Mp4Writer)\s*(?:<[^>]*>)?\s*\{(.*?)\n\}", text, flags=re.S):
+            fields = re.findall(r"^\s*(?:pub(?:\([a-z]+\))?\s+)?(\w+)\s*:", sm.group(2), flags=re.M)
+            structs[sm.group(1)] = fields
+    out["io_raw_sites"] = [[f, n, c] for (f, n), c in sorted(raw.items())]
+    out["boxheader_write_sites"] = header_writes
+    out["interior_mutability"] = sorted(interior)
+    for name in ("Mp4Reader", "Mp4Track", "Mp4TrackWriter", "Mp4Writer"):
+        if name not in structs:
+            bad.append("struct " + name)
+    out["struct_fields"] = [[k, structs[k]] for k in sorted(structs)]
     return out
 
 
@@ -294,6 +332,16 @@ def emit_coq(t):
         A("Definition %s_flags : list (string * N) := [" % st)
         A(";\n".join("  (%s, 0x%x)" % (coq_str(n), v) for n, v in fl))
         A("].")
+    A("Definition io_raw_sites : list (string * string * N) := [")
+    A(";\n".join("  (%s, %s, %d)" % (coq_str(f), coq_str(n), c) for f, n, c in t["io_raw_sites"]))
+    A("].")
+    A("Definition boxheader_write_sites : N := %d." % t["boxheader_write_sites"])
+    A("Definition interior_mutability : list (string * string) := [")
+    A(";\n".join("  (%s, %s)" % (coq_str(f), coq_str(n)) for f, n in t["interior_mutability"]))
+    A("].")
+    A("Definition struct_fields : list (string * list string) := [")
+    A(";\n".join("  (%s, [%s])" % (coq_str(k), "; ".join(coq_str(x) for x in fs)) for k, fs in t["struct_fields"]))
+    A("].")
     A("Definition untranslatable : list string := [")
     A(";\n".join("  " + coq_str(x) for x in t["untranslatable"]))
     A("].")
